@@ -42,14 +42,17 @@ def _l1_site_rules(a1: int, a2: int, b1: int, refi: int, sel: int, phased: bool,
 
 
 RECS = [('chr1', 11, 'C', ('T',), {'s1': ('C',), 's2': ('T',)}), ('chr2', 21, 'A', ('G',), {'s1': ('G',), 's2': ('A',)}),
-        ('chr1', 31, 'G', ('A',), {'s1': ('G',), 's2': ('G',)})]     # the last one is monomorphic: uninformative
+        ('chr1', 26, 'C', ('T',), {'s1': ('C',), 's2': (None,)}),      # missing genotype: usable with the base that was seen (single base!)
+        ('chr1', 31, 'G', ('A',), {'s1': ('G',), 's2': ('G',)}),       # monomorphic, directly after the missing-genotype record: uninformative
+        ('chr2', 36, 'T', ('TGG',), {'s1': ('T',), 's2': ('TGG',)})]   # multi-base allele: not a single-nucleotide site
+QUERIES = ((10, 'C'), (10, 'T'), (20, 'G'), (25, 'C'), (30, 'G'), (35, 'T'), (10, 'A'))
 
 
 def _answers(ar, order):
     out = []
     for ci in order:
         chrom = pick(['chr1', 'chr2', 'chr3'], ci)
-        for pos, base in ((10, 'C'), (10, 'T'), (20, 'G'), (30, 'G'), (10, 'A')):
+        for pos, base in QUERIES:
             r = ar.getAllelesAt(chrom, pos, base)
             out.append(None if r is None else sorted(r))
     return out
@@ -59,7 +62,7 @@ def _want(order):
     out = []
     for ci in order:
         chrom = ['chr1', 'chr2', 'chr3'][ci]
-        for pos, base in ((10, 'C'), (10, 'T'), (20, 'G'), (30, 'G'), (10, 'A')):
+        for pos, base in QUERIES:
             ans = None
             for (c, p, ref, alts, gts) in RECS:
                 if c == chrom and p - 1 == pos:
@@ -109,7 +112,7 @@ LEMMAS = [
 PROPERTY = dict(
     functions=['alleleTools.AlleleResolver.__init__ / fetchChromosome / write_cache / read_cached / getAllelesAt / clean_vcf_name'],
     bounds=dict(site='one record, 2 samples (one with two alleles), every allele over {A,C,G,T,multi-base,missing}, reference C or A, 3 sample selections, phased / unphased, 3 ignore sets, every query base',
-                modes='3 records on 2 contigs (+1 contig absent from the VCF); eager, lazy, cache first run, cache second run; both values of lazyLoad with use_cache; every access order of 3 contig visits incl. returning to an evicted contig'),
+                modes='5 records on 2 contigs (informative, missing genotype, monomorphic, multi-base) (+1 contig absent from the VCF); eager, lazy, cache first run, cache second run; both values of lazyLoad with use_cache; every access order of 3 contig visits incl. returning to an evicted contig'),
     outside=['htslib VCF parsing and index', 'the "ugly mode" text parser', 'region_start / region_end', 'getAllele over reads'],
     assumptions=['pysam.VariantFile / gzip / os inside alleleTools replaced by stubs/fakevcf.py', 'a site with a missing genotype is usable with the bases that were seen (pinned behaviour)'],
     trusted=['stubs/fakevcf.py', 'spec/c18.py'],
